@@ -1171,6 +1171,19 @@ class Gen:
         self.h.append("BEGIN_PUBLISH")
         for i in range(max(1, int(r.choice([2, 3, 4]) * self.size))):
             self.model["functions"].append(self.gen_function(None, "free", ns=ns))
+        if getattr(self, "enumalias", False):
+            # (v3, enumalias) enums named through typedef / using aliases in results and parameters
+            glob = [e for e in self.enums if not e.get("owner") and e.get("lib") == self.name and (e.get("ns") or None) == ns]
+            for e in glob[:2]:
+                n5 = r.randrange(10000)
+                al = f"EnAl{n5}"
+                self.h.append(f"typedef {e['name']} {al};" if r.random() < 0.5 else f"using {al} = {e['name']};")
+                et = T("enum", name=e["qname"], scoped=e["scoped"])
+                f = self.gen_function(None, "free", ns=ns, ret=et,
+                                      params=[dict(name=f"ea_{n5}", type=et, default=None, default_value=None)])
+                self.h[-1] = self.h[-1].replace(e["qname"], al).replace(e["name"], al)
+                f["enum_alias"] = al
+                self.model["functions"].append(f)
         # a free overload set
         oname = self.ident("fov_")
         fk = ["i", "f", "s", "if", "none"] + (["b"] if getattr(self, "ext", False) else [])
@@ -1286,13 +1299,14 @@ class Lib:
 
 def generate(rng, name="liba", size=1.0, docs=True, native=False, prior=None, dep_bases=(), n_classes=None,
              adversarial=False, strings=True, ordering=False, oddities=False, arrays=True, ext=False, opaque=False,
-             shadow=False):
+             shadow=False, enumalias=False):
     g = Gen(rng, name, size=size, docs=docs, native=native, prior=prior)
     g.strings = strings
     g.ordering = ordering
     g.oddities = oddities
     g.arrays = arrays
     g.opaque = opaque
+    g.enumalias = enumalias
     g.shadow = shadow     # v3: inherited member typedef hiding an outer typedef (C01)
     g.ext = ext       # v2 features: bool overloads, MAKE_SEQ_PROPERTY, nested classes, hiding methods
     g.generate(n_classes=n_classes, dep_bases=dep_bases)
